@@ -239,10 +239,10 @@ V("c13-benign-power", "C13", NNLS, "        A[i, :] = (product if is_imaginary e
 ZREC = "analysis/zhit/reconstruction.py"
 ZOFF = "analysis/zhit/offset.py"
 ZWGT = "analysis/zhit/weights.py"
-V("c11-gamma", "C11", ZREC, "gamma = -pi / 6", "gamma = pi / 6", "fire", "_reconstruct:gamma")
-V("c11-prefactor", "C11", ZREC, "ln_modulus.append(2 / pi * integral + gamma * derivative)", "ln_modulus.append(1 / pi * integral + gamma * derivative)", "fire", "_reconstruct:formula:impedance")
-V("c11-admittance-sign", "C11", ZREC, "ln_modulus.append(-(-2 / pi * integral - gamma * derivative))", "ln_modulus.append(-(2 / pi * integral + gamma * derivative))", "fire", "_reconstruct:formula:admittance")
-V("c11-start", "C11", ZREC, "ln_w_s: float = ln_omega[0]", "ln_w_s: float = ln_omega[-1]", "fire", "_reconstruct:integral")
+V("c11-gamma", "C11", ZREC, "gamma = -pi / 6", "gamma = pi / 6", "fire", "_reconstruct:formula")
+V("c11-prefactor", "C11", ZREC, "ln_modulus.append(2 / pi * integral + gamma * derivative)", "ln_modulus.append(1 / pi * integral + gamma * derivative)", "fire", "_reconstruct:formula")
+V("c11-admittance-sign", "C11", ZREC, "ln_modulus.append(-(-2 / pi * integral - gamma * derivative))", "ln_modulus.append(-(2 / pi * integral + gamma * derivative))", "fire", "_reconstruct:formula")
+V("c11-start", "C11", ZREC, "ln_w_s: float = ln_omega[0]", "ln_w_s: float = ln_omega[-1]", "fire", "_reconstruct:formula")
 V("c11-weights-dropped", "C11", ZOFF, "return weights * errors", "return errors", "fire", "_offset_residual:weights")
 V("c11-weights-added", "C11", ZOFF, "return weights * errors", "return weights + errors", "fire", "_offset_residual:weights")
 V("c11-benign-formula", "C11", ZREC, "ln_modulus.append(2 / pi * integral + gamma * derivative)", "ln_modulus.append(gamma * derivative + integral * 2 / pi)", "silent")
